@@ -7,7 +7,8 @@
 (* Setup fields of the trace record:                                       *)
 (*   t0      : the connection's default time-out, in ticks                 *)
 (*   tries   : the connection's n_tries                                    *)
-(*   seqmod  : size of the sequence-number space of the connection         *)
+(*   seqmod  : size of the sequence-number space of the connection (for    *)
+(*             the record only; no clause uses it)                         *)
 (*   bursts  : one record per call: [n |-> number of commands,             *)
 (*             window |-> window size, extra |-> sequence of n per-command *)
 (*             extra time-outs in ticks]                                   *)
@@ -72,7 +73,6 @@ Checks(e) ==
             \* first transmission of a command
             WindowBound       |-> isNew => Cardinality(DOMAIN st.out) < Burst.window,
             SeqNotOutstanding |-> isNew => sq \notin DOMAIN st.out,
-            SeqInRange        |-> sq \in 0..(Tr.seqmod - 1),
             \* retransmission
             RetransmitOfUnanswered |-> again => mine,
             NoEarlyRetransmit |-> mine => Elapsed(st.out[sq].sent, tnow, TmoOf(cmd)),
